@@ -51,12 +51,40 @@ impl Rotation {
     }
 }
 
+/// The number of a new connection. A peer may come back under its identity while its old
+/// connection is still registered or still ending: whatever is done for one connection (above
+/// all forgetting it) must not hit the other, so connections are told apart by number.
+pub(crate) fn next_conn() -> u64 {
+    static NEXT: std::sync::atomic::AtomicU64 = std::sync::atomic::AtomicU64::new(1);
+    NEXT.fetch_add(1, std::sync::atomic::Ordering::Relaxed)
+}
+
+/// What a socket keeps for sending to one connection. The write half has its own lock: the peer
+/// table is only ever locked for an instant, never while a send waits for the transport, so
+/// that nothing that touches the table (a peer registering, a peer being forgotten, the socket
+/// being dropped) has to wait for a send, and abandoning a send leaves nothing locked.
 pub(crate) struct Peer {
-    pub(crate) send_queue: ZmqFramedWrite,
+    pub(crate) conn: u64,
+    pub(crate) send_queue: futures::lock::Mutex<ZmqFramedWrite>,
+}
+
+impl Peer {
+    pub(crate) fn new(conn: u64, send_queue: ZmqFramedWrite) -> Arc<Self> {
+        Arc::new(Self {
+            conn,
+            send_queue: futures::lock::Mutex::new(send_queue),
+        })
+    }
+}
+
+/// Forgetting one connection of a peer, as opposed to `peer_disconnected`, which forgets
+/// whatever is registered under the identity.
+pub(crate) trait ForgetConn {
+    fn forget_conn(&self, peer_id: &PeerIdentity, conn: u64);
 }
 
 pub(crate) struct GenericSocketBackend {
-    pub(crate) peers: scc::HashMap<PeerIdentity, Peer>,
+    pub(crate) peers: scc::HashMap<PeerIdentity, Arc<Peer>>,
     fair_queue_inner: Option<Arc<Mutex<QueueInner<ZmqFramedRead, PeerIdentity>>>>,
     pub(crate) round_robin: Rotation,
     socket_type: SocketType,
@@ -71,12 +99,12 @@ pub(crate) fn forget_ended_peers<S, B>(
     fair_queue: &mut crate::fair_queue::FairQueue<S, PeerIdentity>,
     backend: &Arc<B>,
 ) where
-    B: MultiPeerBackend + 'static,
+    B: ForgetConn + Send + Sync + 'static,
 {
     let backend = Arc::downgrade(backend);
-    fair_queue.on_stream_end(move |peer_id| {
+    fair_queue.on_stream_end(move |peer_id, conn| {
         if let Some(backend) = backend.upgrade() {
-            backend.peer_disconnected(peer_id);
+            backend.forget_conn(peer_id, conn);
         }
     });
 }
@@ -97,16 +125,11 @@ impl GenericSocketBackend {
         }
     }
 
-    /// `peer_disconnected` for a caller that held the peer's table entry across an await. Meanwhile
-    /// a task registering another peer may have queued for the same bucket; it is next in line
-    /// and may need this very thread to run, so the removal is awaited: a blocking wait could
-    /// never be granted on a single-threaded runtime.
-    pub(crate) async fn forget_peer(&self, peer_id: &PeerIdentity) {
-        self.peers.remove_async(peer_id).await;
-        self.round_robin.leave(peer_id);
-        if let Some(inner) = &self.fair_queue_inner {
-            inner.lock().remove(peer_id);
-        }
+    /// The registered connection of a peer, if any
+    pub(crate) async fn peer(&self, peer_id: &PeerIdentity) -> Option<Arc<Peer>> {
+        self.peers
+            .read_async(peer_id, |_, peer| peer.clone())
+            .await
     }
 
     pub(crate) async fn send_round_robin(&self, message: Message) -> ZmqResult<PeerIdentity> {
@@ -127,20 +150,21 @@ impl GenericSocketBackend {
             };
             #[cfg(feature = "verif-hooks")]
             crate::__verif::yield_point("rr.after_pop").await;
-            let send_result = match self.peers.get_async(&next_peer_id).await {
-                Some(mut peer) => peer.send_queue.send(message).await,
+            let peer = match self.peer(&next_peer_id).await {
+                Some(peer) => peer,
                 None => {
                     self.round_robin.leave(&next_peer_id);
                     continue;
                 }
             };
+            let send_result = peer.send_queue.lock().await.send(message).await;
             return match send_result {
                 Ok(()) => {
                     self.round_robin.served(&next_peer_id);
                     Ok(next_peer_id)
                 }
                 Err(e) => {
-                    self.forget_peer(&next_peer_id).await;
+                    self.forget_conn(&next_peer_id, peer.conn);
                     Err(e.into())
                 }
             };
@@ -173,14 +197,17 @@ impl SocketBackend for GenericSocketBackend {
 impl MultiPeerBackend for GenericSocketBackend {
     async fn peer_connected(self: Arc<Self>, peer_id: &PeerIdentity, io: FramedIo) {
         let (recv_queue, send_queue) = io.into_parts();
+        let conn = next_conn();
         self.peers
-            .upsert_async(peer_id.clone(), Peer { send_queue })
+            .upsert_async(peer_id.clone(), Peer::new(conn, send_queue))
             .await;
         self.round_robin.join(peer_id);
         match &self.fair_queue_inner {
             None => {}
             Some(inner) => {
-                inner.lock().insert(peer_id.clone(), recv_queue);
+                inner
+                    .lock()
+                    .insert_conn(peer_id.clone(), conn, recv_queue);
             }
         };
     }
@@ -194,5 +221,20 @@ impl MultiPeerBackend for GenericSocketBackend {
                 inner.lock().remove(peer_id);
             }
         };
+    }
+}
+
+impl ForgetConn for GenericSocketBackend {
+    fn forget_conn(&self, peer_id: &PeerIdentity, conn: u64) {
+        let forgotten = self
+            .peers
+            .remove_if_sync(peer_id, |peer| peer.conn == conn)
+            .is_some();
+        if forgotten {
+            self.round_robin.leave(peer_id);
+        }
+        if let Some(inner) = &self.fair_queue_inner {
+            inner.lock().remove_conn(peer_id, conn);
+        }
     }
 }
